@@ -67,7 +67,7 @@ def _init_worker():
     global _ENV
     _ENV = None
     _PROJ.clear()
-    sys.setrecursionlimit(3000)
+    # (the interpreter recursion limit is left alone: raising it to 3000 is jedi's own job at import -- C15)
     from harness.core import private_cache
     private_cache()
 
